@@ -266,7 +266,9 @@ def _build(versions=None, root=0, arg=0, name='n'):
 def _probe(rng, paths, k=3):
     out = []
     for p in rng.sample(paths, min(k, len(paths))):
-        out.append(_q(rng.choice(['is_file', 'is_dir', 'exists', 'list_dir', 'walk', 'get_size', 'read']), p))
+        kind = rng.choice(['is_file', 'is_dir', 'exists', 'list_dir', 'walk', 'get_size', 'read'])
+        # both orders of walk, both comparison modes of a read
+        out.append(_q(kind, p, (rng.random() < 0.6) if kind == 'walk' else (rng.choice('MMH') if kind == 'read' else None)))
     return out
 
 
